@@ -79,7 +79,7 @@ func Shrink(p Prop, s Script, sig string, budget int) (Script, int) {
 
 var registry = map[string]Prop{}
 
-func Register(p Prop) { registry[p.ID()] = p }
+func Register(p Prop)       { registry[p.ID()] = p }
 func Lookup(id string) Prop { return registry[id] }
 func Registered() []string {
 	m := map[string]int{}
